@@ -1529,6 +1529,11 @@ class SRadGrid:
             return 1
         if attr == "shape":
             return (self.n,)
+        if attr == "discretization":
+            return SArr([self.dr])
+        if attr == "axes_coords":
+            # cell centres r_k = r_inner + (k + 1/2) dr, k = 0..N-1 (indexing beyond the last cell is an IndexError)
+            return (SSeq(self.n, lambda k: self.r_in + (z3.ToReal(to_z3(k)) + z3.RealVal("1/2")) * self.dr, "axes_coords[0]", "array"),)
         if attr == "transform":
             def tr(run2, a, k):
                 src, tgt = (list(a[1:3]) + [None, None])[:2]
